@@ -12,53 +12,92 @@ TRUSTED_BASE = [
     "Coq 8.16.1 kernel; no axioms (Print Assumptions: closed); no native_compute",
     "extraction (ExtrOcamlBasic only) + ocaml/driver.ml (parsing/printing); Rust harness avrodrive",
     "hand-written model/Container.v of writer/mod.rs (wstate: buffer, count, pending block, sink, schedule, pools) tied by the correspondence run (null codec: per-call outcomes, sink lengths, bytes)",
-    "spec/FileSpec.v reference parser (extracted) is the independent judge of every sink snapshot (null codec); the crate's own reader reads every snapshot for all codecs"
+    "spec/FileSpec.v reference parser (extracted) is the independent judge of every sink snapshot, for every codec; block data of compressed snapshots are decoded by decoders that are not the crate's reader: Python zlib/bz2/lzma for deflate/bzip2/xz (exactly one complete stream per block), the snap / zstd crates' own decoders (harness command blockdec) and Python's zlib.crc32 for snappy/zstandard; the crate's own reader also reads every snapshot for all codecs",
+    "hook H3 (hooks/H3.diff, harness command cwh): the starting length of the encode loops' output buffer is set by the run (the crate's value 32768 is one of the values used)",
+    "OCaml driver command cwraw: Container.v's writer (parametric in the block compressor) instantiated with the identity and the codec's name; lib/cont.py raw_view rebuilds the same view of a snapshot of the crate's sink from the reference parser's blocks and the independent decoders' payloads",
 ]
 ASSUMPTIONS = [
-    "compression libraries are outside the model: enc is an arbitrary function in the theorems; compressed snapshots are judged by reading them back with the crate's reader",
+    "compression libraries are outside the model: enc is an arbitrary function in the theorems; compressed snapshots are judged on the crate: reference parser + independent decoders (payload of every block = encodings of the values it announces) + the crate's reader, and compared call by call with the model instantiated with enc = identity",
     "the two contracts of ser used by the accounting and no-panic theorems (ser only appends; ser has no writer panic site) are proved for the real ser in proofs/SerContractProofs.v",
     "push_serialized(bytes, n) with n >= 2^63 or with n = 0 and non-empty bytes is a caller error outside the property (ContainerProofs.finish_leaves_uncounted_bytes, count_above_i64_not_in_grammar)"
 ]
 
+def clip(line, n=1200000):
+    """the whole harness line (it reproduces the case); only absurdly long ones are cut"""
+    return line if len(line) <= n else line[:n]
+
 def run(ctx):
     rng = random.Random(ctx["seed"] * 1000003 + 15)
     n = 250 if ctx["tier"] == "quick" else 6000
+    nbigre = 40 if ctx["tier"] == "quick" else 600
     hs = []
-    for _ in range(n):
-        reorder = rng.random() < 0.5
-        h = cont.History(rng, schema_kw={"max_nodes": rng.choice([3, 6, 10]), "max_depth": 3}) if reorder else cont.History(rng)
+    for k in range(n + nbigre):
+        bigre = k >= n
+        reorder = bigre or rng.random() < 0.5
+        if bigre:
+            # random presentations (fields out of order, failing values at some depth) of values carrying long byte strings / strings,
+            # with deflate / bzip2 / xz and a small starting length of the encode loops' buffer (hook H3): every block grows it several times
+            h = cont.History(rng, big=True, schema_kw={"max_nodes": rng.choice([3, 6, 10]), "max_depth": 3})
+        else:
+            h = cont.History(rng, schema_kw={"max_nodes": rng.choice([3, 6, 10]), "max_depth": 3}) if reorder else cont.History(rng)
         h.prepare()
         ops, expected = cont.make_ops(rng, h, reorder=reorder)
-        codec_sx = rng.choice(cont.CODECS) if rng.random() < 0.5 else "null"
-        bsz = rng.choice([0, 1, 2, 5, 16, 64, 65536])
+        if bigre:
+            codec_sx = rng.choice([c for c in cont.CODECS if cont.codec_family(c) in cont.LOOP_FAMILIES])
+            bsz = rng.choice([0, 64, 4096, 65536])
+            start = rng.choice([1, 2, 64, 1024])
+        else:
+            codec_sx = rng.choice(cont.CODECS) if rng.random() < 0.5 else "null"
+            bsz = rng.choice([0, 1, 2, 5, 16, 64, 65536])
+            start = rng.choice([None, 1, 2, 64]) if cont.codec_family(codec_sx) in cont.LOOP_FAMILIES else None
         h.reorder = reorder
-        hs.append((h, ops, expected, codec_sx, bsz))
+        hs.append((h, ops, expected, codec_sx, bsz, start))
+    # blocks whose compressed form outgrows the encode loops' output buffer (several times): every codec setting x starting length
+    bigs = []
+    for (c, start, shape, content, far) in cont.big_plan(rng, ctx["tier"]):
+        bigs.append((cont.BigHistory(rng, start, shape, content=content, want_far=far), c, start))
+    cont.prepare_all([h for h, _, _ in bigs])
+    for h, c, start in bigs:
+        ops, expected = cont.make_ops(rng, h, allow_fail=rng.random() < 0.4)
+        h.reorder = False
+        hs.append((h, ops, expected, c, cont.big_block_size(rng, h), start))
     # schema json as the crate reports it (input of the model's header)
     fr = C.run_parallel(C.AVRODRIVE, ["freeze " + h.schema for h, *_ in hs])
     jsons = [C.unhex(C.parse_sx(r)[0][2]) for r in fr]
-    impl_lines = [cont.cw_line(h, c, b, "vec", [], ops) for (h, ops, ex, c, b) in hs]
+    impl_lines = [cont.with_start(st, cont.cw_line(h, c, b, "vec", [], ops)) for (h, ops, ex, c, b, st) in hs]
     impl = C.run_parallel(C.AVRODRIVE, impl_lines)
-    model_lines = [cont.cw_line(h, c, b, "vec", [], ops, with_json=j) for (h, ops, ex, c, b), j in zip(hs, jsons)]
-    model = C.run_parallel(C.AVROMODEL, model_lines)
+    # Container.v's writer; for a compressed codec with the identity as block compressor (cwraw): the sink before block compression
+    model_lines = [cont.raw_model_line(cont.cw_line(h, c, b, "vec", [], ops, with_json=j)) for (h, ops, ex, c, b, st), j in zip(hs, jsons)]
+    model = cont.run_model(model_lines)
     violations, diffs, samples = [], [], []
     snap_lines, snap_meta = [], []
     nontrivial = set()
-    for idx, ((h, ops, expected, c, b), li, ri, lm, rm) in enumerate(zip(hs, impl_lines, impl, model_lines, model)):
+    from collections import Counter
+    dist = Counter()
+    pis, pms = {}, {}
+    cls = lambda ops_: [(r if r in ("ok", "gone") else "err") for r, l in ops_]
+    for idx, ((h, ops, expected, c, b, st), li, ri, lm, rm) in enumerate(zip(hs, impl_lines, impl, model_lines, model)):
+        li = clip(li)
         pi = cont.parse_cw(ri)
         if pi is None or pi.get("build_err"):
             violations.append({"impl_case": li, "what": "writer could not be built or crashed", "impl": ri[:300]})
             continue
+        pis[idx] = pi
         if rm != "(unmodelled)":
             pm = cont.parse_cw(rm)
-            same = pm and not pm.get("build_err") and pm["built"] == pi["built"] and pm["sink"] == pi["sink"] and \
-                [(r if r in ("ok", "gone") else "err", l) for r, l in pi["ops"]] == [(r if r in ("ok", "gone") else "err", l) for r, l in pm["ops"]]
+            same = pm and not pm.get("build_err") and pm["built"] == pi["built"] and cls(pi["ops"]) == cls(pm["ops"]) and \
+                pm["sink"][:pm["built"]] == pi["sink"][:pi["built"]]
+            if same and c == "null":
+                same = pm["sink"] == pi["sink"] and [l for r, l in pi["ops"]] == [l for r, l in pm["ops"]]
             if not same:
-                diffs.append({"impl_case": li, "model_case": lm, "impl": ri[:600], "model": rm[:600]})
+                diffs.append({"impl_case": li, "model_case": clip(lm), "impl": ri[:600], "model": rm[:600]})
+            else:
+                pms[idx] = pm
         # expectations per op
         exp_texts = [h.spec[i]["dany"] for i in expected]
         done = 0
-        snaps = [("built", pi["built"], 0, False)]
-        for (kind, _sx, *vals), (res, ln) in zip(ops, pi["ops"]):
+        snaps = [("built", pi["built"], 0, False, -1)]
+        for oi, ((kind, _sx, *vals), (res, ln)) in enumerate(zip(ops, pi["ops"])):
             if kind == "fail":
                 if res == "ok":
                     violations.append({"impl_case": li, "what": "a failing value was accepted"})
@@ -68,50 +107,105 @@ def run(ctx):
                 else:
                     done += 1
             if res == "ok":
-                snaps.append((kind, ln, done, kind in ("finish", "into_inner", "drop")))
+                snaps.append((kind, ln, done, kind in ("finish", "into_inner", "drop"), oi))
             elif kind in ("finish", "into_inner", "drop"):
                 violations.append({"impl_case": li, "what": "%s failed on a well-behaved sink: %s" % (kind, res)})
-        for kind, ln, done_k, flush in snaps:
-            snap_lines.append("cr %s slice any 200" % C.hx(pi["sink"][:ln]))
-            snap_meta.append((idx, kind, ln, done_k, flush, exp_texts))
-        nontrivial.add((h.schema, tuple(o[0] for o in ops), c, b))
+        seen = {}
+        for kind, ln, done_k, flush, oi in snaps:
+            # one reader run per distinct sink length (the sink only grows, `done` never decreases): the same bytes must be a prefix of
+            # the values written when that length was FIRST seen, and hold all the values written at every flush point that left it there
+            if ln in seen:
+                m = snap_meta[seen[ln]]
+                m["ois"].append(oi)
+                if flush:
+                    m["flush_done"] = max(m["flush_done"], done_k)
+                    m["kind"] = kind
+                continue
+            seen[ln] = len(snap_lines)
+            snap_lines.append("cr %s slice any %d" % (C.hx(pi["sink"][:ln]), max(200, len(exp_texts) + 3)))
+            snap_meta.append({"idx": idx, "kind": kind, "ln": ln, "first_done": done_k, "flush_done": done_k if flush else -1,
+                              "ois": [oi], "exp": exp_texts})
+        nontrivial.add((h.schema, tuple(o[0] for o in ops), c, b, st))
         if len(samples) < 4:
-            samples.append({"schema": h.schema[:200], "codec": c, "approx_block_size": b, "ops": [o[0] for o in ops]})
+            samples.append({"schema": h.schema[:200], "codec": c, "approx_block_size": b, "ops": [o[0] for o in ops], "start": st})
     snaps = C.run_parallel(C.AVRODRIVE, snap_lines)
-    null_parse_lines, null_parse_meta = [], []
-    for line, res, (idx, kind, ln, done_k, flush, exp_texts) in zip(snap_lines, snaps, snap_meta):
+    parse_lines = ["fileparse " + line.split()[1] for line in snap_lines]
+    parses = cont.run_model(parse_lines)
+    dec = cont.BlockDecoder()
+    fps = []
+    for m, res in zip(snap_meta, parses):
+        fp = cont.parse_fileparse(res)
+        fps.append(fp)
+        for cnt, d in (fp["blocks"] if fp else []):
+            dec.want(cont.codec_family(hs[m["idx"]][3]), d)
+    dec.flush()
+    for line, res, m, fp in zip(snap_lines, snaps, snap_meta, fps):
+        idx, kind, ln = m["idx"], m["kind"], m["ln"]
+        h, ops, expected, c, b, st = hs[idx]
+        fam = cont.codec_family(c)
+        exp_texts = m["exp"]
         pr = cont.parse_cr(res)
-        li = impl_lines[idx]
+        li = clip(impl_lines[idx])
         if pr.get("open_err") or "items" not in pr:
             violations.append({"impl_case": li, "what": "sink contents after '%s' (first %d bytes) are not a readable file" % (kind, ln),
                                "reader": res[:300], "snapshot_case": line[:2000]})
+        else:
+            ok, k, why = cont.values_prefix_then_eof(pr["items"], exp_texts[:m["first_done"]], False)
+            if ok and m["flush_done"] >= 0 and k != m["flush_done"]:
+                ok, why = False, "only %d of %d values present after a flush point" % (k, m["flush_done"])
+            if not ok:
+                violations.append({"impl_case": li, "what": "after '%s' (%d bytes, %d values written): %s" % (kind, ln, max(m["first_done"], m["flush_done"]), why),
+                                   "snapshot_case": line[:2000]})
+        # independent judge of the same snapshot: the extracted reference parser, and for compressed codecs decoders that are not the crate's
+        if fp is None:
+            violations.append({"impl_case": li, "what": "reference parser rejects the sink contents after '%s' (first %d bytes)" % (kind, ln)})
             continue
-        ok, k, why = cont.values_prefix_then_eof(pr["items"], exp_texts[:done_k], flush)
-        if not ok:
-            violations.append({"impl_case": li, "what": "after '%s' (%d bytes, %d values written): %s" % (kind, ln, done_k, why),
-                               "snapshot_case": line[:2000]})
-        if hs[idx][3] == "null":
-            null_parse_lines.append("fileparse " + line.split()[1])
-            null_parse_meta.append((idx, kind, ln, done_k, flush))
-    # independent parse of the null-codec snapshots by the extracted reference parser
-    for res, (idx, kind, ln, done_k, flush) in zip(C.run_parallel(C.AVROMODEL, null_parse_lines), null_parse_meta):
-        h, ops, expected, c, b = hs[idx]
-        p = C.parse_sx(res)[0]
-        if p[0] != "ok":
-            violations.append({"impl_case": impl_lines[idx], "what": "reference parser rejects the sink contents after '%s'" % kind})
+        blocks = fp["blocks"]
+        cnt = sum(bc for bc, _ in blocks)
+        pls = []
+        for bi, (bc, d) in enumerate(blocks):
+            pl, why = dec.get(fam, d)
+            pls.append(pl)
+            if pl is None:
+                violations.append({"impl_case": li, "what": "after '%s' (first %d bytes of the sink): data of block %d (%d bytes, %d objects) is not a %s stream an independent decoder accepts: %s" % (
+                    kind, ln, bi, len(d), bc, fam, why)})
+        if any(pl is None for pl in pls):
+            dist["snapshots-undecodable/" + fam] += 1
             continue
-        blocks = p[3:]
-        cnt = sum(int(bk[1]) for bk in blocks)
-        data = b"".join(C.unhex(bk[2]) for bk in blocks)
+        dist["snapshots-parsed+decoded/" + fam] += 1
+        data = b"".join(pls)
         want = b"".join(C.unhex(h.spec[i]["canon"]) for i in expected[:cnt])
         if h.reorder:
-            want = data      # random presentations may choose other (equally valid) block layouts for arrays / maps: bytes judged by the reader above
-        if cnt > done_k or data != want or (flush and cnt != done_k) or any(int(bk[1]) <= 0 for bk in blocks):
-            violations.append({"impl_case": impl_lines[idx], "what": "block contents after '%s' are not the encodings of the first %d values" % (kind, cnt)})
-    return {"evaluations": len(impl_lines) + len(snap_lines), "distinct_nontrivial": len(nontrivial),
+            want = data      # random presentations may choose other (equally valid) block layouts for arrays / maps: bytes judged by the reader above and by the model below
+        if cnt > m["first_done"] or data != want or (m["flush_done"] >= 0 and cnt != m["flush_done"]) or any(bc <= 0 for bc, _ in blocks):
+            violations.append({"impl_case": li, "what": "block contents after '%s' (first %d bytes of the sink; counts %r, %d decoded bytes) are not the encodings of the first %d values (%d bytes)" % (
+                kind, ln, [bc for bc, _ in blocks], len(data), cnt, len(want))})
+        # model: the snapshot with its blocks decompressed = the model's sink at the same call
+        pm = pms.get(idx)
+        if pm is not None:
+            pi = pis[idx]
+            rv = cont.raw_view(pi["sink"][:pi["built"]], fp["sync"], list(zip([bc for bc, _ in blocks], pls)))
+            for oi in m["ois"]:
+                mlen = pm["built"] if oi < 0 else pm["ops"][oi][1]
+                if rv != pm["sink"][:mlen]:
+                    diffs.append({"impl_case": li, "model_case": clip(model_lines[idx]),
+                                  "what": "after call %d ('%s'): the sink with its blocks decompressed (%d bytes, counts %r) is not the model's sink at that call (%d bytes)" % (
+                                      oi, kind, len(rv), [bc for bc, _ in blocks], mlen)})
+                    break
+        if st is not None or isinstance(h, cont.BigHistory):
+            g = max([cont.growth_steps(st or 32768, len(d)) for _, d in blocks] + [0]) if fam in cont.LOOP_FAMILIES else 0
+            dist["snapshots/buffer-growth-steps/%s/%s%s" % (fam, "0" if g == 0 else "1-2" if g <= 2 else "3-6" if g <= 6 else "7+", "/reordered" if h.reorder else "")] += 1
+    violations.sort(key=lambda v: len(v.get("impl_case", "")))      # the smallest reproducing inputs first
+    return {"evaluations": len(impl_lines) + len(model_lines) + len(snap_lines) + len(parse_lines), "distinct_nontrivial": len(nontrivial),
             "rule": "histories over {serialize ok, serialize failing at some depth, push pre-serialized, finish_block, into_inner, drop} x "
-                    "approx_block_size {0,1,2,5,16,64,65536} x codecs; after every call that returned Ok the sink snapshot is read back by the crate's "
-                    "reader (must yield a prefix of the written values, all of them after a flush point, then end of stream) and, for the null codec, "
-                    "parsed by the extracted reference parser (block counts and bytes must be the encodings of a prefix); model vs crate: per-call "
-                    "outcomes, sink lengths and final bytes (null codec)",
-            "samples": samples, "violations": violations, "model_diffs": diffs}
+                    "approx_block_size {0,1,2,5,16,64,65536} x codecs x starting length of the encode loops' output buffer {crate's 32768, 1, 2, 64} (hook H3); "
+                    "random presentations of values carrying 300..6000-byte strings / byte strings under deflate / bzip2 / xz with START in {1,2,64,1024}; a directed "
+                    "enumeration codec setting x START {1,2,64,1024,4096,32768} x value shapes {bytes, string, fixed, record{long,bytes}, array of doubles, many medium "
+                    "records per block} with incompressible / text / constant contents of START-1..40*START and 33000..200000 bytes (distribution: growth steps of "
+                    "the buffer per snapshot); after every call that returned Ok the sink snapshot is read back by the crate's "
+                    "reader (must yield a prefix of the written values, all of them after a flush point, then end of stream) and, for EVERY codec, "
+                    "parsed by the extracted reference parser, every block's data decoded by a decoder that is not the crate's (Python zlib/bz2/lzma; snap / zstd crates "
+                    "for snappy / zstandard): exactly one complete stream per block, block counts and payloads = the encodings of a prefix of the values; model vs crate: per-call "
+                    "outcomes, header, and at every call the sink with its blocks decompressed = the sink of Container.v's writer run with the identity as block compressor "
+                    "(null codec: sink lengths and bytes as they are)",
+            "samples": samples, "violations": violations, "model_diffs": diffs, "distribution": dict(dist)}
